@@ -82,6 +82,13 @@ def configs(tier):
                              'join'],
                      pool={}, oracle='c07', timer_deviation=True),
                 2 if not T else 3, 30000 if not T else 150000))
+    # a worker started by grow() takes a waiting job while the embedder's
+    # on_process_up callback for it is still running
+    out.append((dict(name='1proc/grow-with-slow-process-up', procs=1, jobs=JS,
+                     script=['submit:0', 'submit:1', 'grow:1', 'wait:1',
+                             'close', 'join'],
+                     pool={}, oracle='c07', slow_process_up=0.5),
+                2 if not T else 3, 20000 if not T else 60000))
     if T:
         out.append((dict(name='1proc/1job/timers', procs=1, jobs=J1,
                          script=S(1) + ['close', 'join'], pool={},
